@@ -22,6 +22,12 @@ RULE = (
 RULE += (
     ' Added after seeded round 9: grids two cells thick along an axis; every thread count 2..16 x particle counts {15, 61, 115, 4009, random} against the reference kernel.'
 )
+RULE += (
+    ' Added after seeded round 11: call histories in one process that mix REJECTED tsc_parallel calls (nthread>1 with an odd or too-large user npartition, coord out of range, 1-D pos; '
+    'made with a caller-supplied NON-ZERO grid or with a shape) with later valid calls that ask for a fresh grid of the same shape (int or shape tuple) and valid calls into supplied grids: '
+    'every valid call is compared with (grid contents before the call + reference kernel sum of that call\'s particles), a freshly allocated grid must not share memory with any array the '
+    'caller handed in or received earlier, and no later valid call may change a grid it was not given.'
+)
 ASSUMPTIONS = [
     'general regime tolerance per cell: (16 + 8*gmax)*eps(position dtype)*(3x3x3-dilated reference deposit of |w|) + 4*eps(grid dtype)*same',
     'with wrap=False only positions inside [0, BoxSize] are used (documented precondition)',
@@ -345,6 +351,104 @@ def get_field_case(run, ps, rng, k):
     compare(run, f, ref_over, tol, dict(kernel='get_field', paste=paste, nmesh=n, box=box, N=N, d=d, nthread=nthread), 'get-field')
 
 
+def _rejected_call(run, tsc, rng, pos, dens, box, n1d):
+    """One call the validator (or the argument handling in front of any deposit) rejects.  Returns the kind."""
+    from numba.core.errors import TypingError
+
+    kind = ['odd-npartition', 'npartition-too-large', 'odd-npartition', 'coord-out-of-range', 'pos-1d'][int(rng.integers(0, 5))]
+    kw = dict(nthread=int(rng.integers(2, 9)))
+    p = pos.copy()
+    if kind == 'odd-npartition':
+        kw['npartition'] = 2 * int(rng.integers(1, 6)) + 1
+    elif kind == 'npartition-too-large':
+        kw['npartition'] = 2 * (max(n1d // 4, 2) // 2) + 2 * int(rng.integers(1, 4))
+    elif kind == 'coord-out-of-range':
+        kw['coord'] = 3
+    else:
+        p = p[:, 0].copy()
+    try:
+        with warnings.catch_warnings():
+            warnings.simplefilter('ignore')
+            tsc.tsc_parallel(p, dens, box, **kw)
+    except (ValueError, IndexError, TypingError):
+        run.count('rejected_calls_before_valid_ones')
+    else:
+        run.count('expected_rejection_did_not_raise')  # not stated by the property: counted only
+    return kind
+
+
+def history_episode(run, tsc, rng, j):
+    """A caller's history within one process: valid and REJECTED calls interleaved, into supplied non-zero grids and into grids the
+    function is asked to allocate.  Only the valid calls are judged, each against (contents before + reference kernel sum of that
+    call's particles); what a failed call leaves behind (pools, caches, flags) must not show up in them."""
+    shape = [(16, 16, 16), (8, 8, 8), (12, 20, 8), (32, 32, 32), (5, 9, 7), (24, 24, 24), (8, 16, 4)][j % 7]
+    cubic = len(set(shape)) == 1
+    box = float(rng.choice([1.0, 100.0, 500.0]))
+    pdt = [np.float32, np.float64][j % 2]
+    held = []  # [array the caller holds, snapshot of what it must contain, label]
+    ops = [['valid_supplied', 'rejected_supplied', 'rejected_shape', 'valid_shape'][int(x)] for x in rng.integers(0, 4, 3)]
+    ops += ['valid_supplied', 'rejected_supplied', 'valid_shape', 'valid_supplied', 'rejected_supplied', 'valid_supplied', 'valid_shape']
+    nrej = 0
+    hist = []
+    for step, op in enumerate(ops):
+        N = int(rng.choice([2, 40, 300, 1500]))
+        pos = families(rng, shape, box, pdt, ['random', 'halfedges', 'centres'][int(rng.integers(0, 3))], N)
+        supplied = op.endswith('supplied')
+        if supplied:
+            if held and rng.integers(0, 3) == 0:
+                slot = held[int(rng.integers(0, len(held)))]  # accumulate further into a grid already held
+            else:
+                gdt = [np.float32, np.float64][int(rng.integers(0, 2))]
+                g = rng.integers(1, 7, shape).astype(gdt)  # non-zero everywhere
+                slot = [g, g.copy(), 'supplied@%d' % step]
+                held.append(slot)
+            dens = slot[0]
+        else:
+            dens = shape[0] if (cubic and rng.integers(0, 2)) else shape
+        if op.startswith('rejected'):
+            kind = _rejected_call(run, tsc, rng, pos, dens, box, shape[0])
+            nrej += 1
+            hist.append(op + ':' + kind)
+            if supplied:
+                slot[1] = slot[0].copy()  # whatever a rejected call did to its own grid is not judged
+            continue
+        nthread = int(rng.choice([1, 1, 2, 4]))
+        w = None if rng.integers(0, 2) else rng.uniform(0, 3, N).astype(pdt)
+        desc = dict(kernel='tsc', family='call history with rejected calls', episode=j, step=step, op=op, history=list(hist), shape=list(shape), box=box, N=N, nthread=nthread, pos_dtype=np.dtype(pdt).str, densgrid_arg=('ndarray ' + slot[2]) if supplied else repr(dens), rejected_calls_so_far=nrej)
+        hist.append(op)
+        run.ev()
+        run.progress(desc)
+        with warnings.catch_warnings():
+            warnings.simplefilter('ignore')
+            out = tsc.tsc_parallel(pos.copy(), dens, box, weights=None if w is None else w.copy(), nthread=nthread)
+        run.count('valid_calls_in_histories_with_rejected_calls')
+        run.nt(('tsc-history', j, step, op))
+        before = slot[1].astype(np.float64) if supplied else 0.0
+        if supplied:
+            if out is not dens:
+                return run.violation('tsc-state-left-by-rejected-call', dict(what='supplied grid not returned', **desc))
+        else:
+            for a, _, label in held:
+                if np.shares_memory(out, a):
+                    return run.violation('tsc-state-left-by-rejected-call', dict(what='grid the function was asked to allocate shares memory with an array the caller already holds', shares_with=label, total_got=float(out.sum(dtype=np.float64)), total_expected=float(N if w is None else w.astype(np.float64).sum()), **desc))
+            if tuple(out.shape) != tuple(shape):
+                return run.violation('tsc-state-left-by-rejected-call', dict(what='shape of allocated grid', got_shape=list(out.shape), **desc))
+        p64 = pos.astype(np.float64)
+        ref = mas.ref_paint(p64, shape, box, w, offset=0.0, kind='tsc')
+        gdt_out = out.dtype.type
+        if compare(run, out, ref + before, tol_grid(ref + np.abs(before), shape, pdt, gdt_out, npart=(N if gdt_out == np.float32 else 0)), desc, 'tsc-state-left-by-rejected-call'):
+            return True
+        # no grid the call was not given may have changed
+        for other in held:
+            if (not supplied or other is not slot) and not np.array_equal(other[0], other[1]):
+                return run.violation('tsc-state-left-by-rejected-call', dict(what='a grid the call was not given changed', changed=other[2], **desc))
+        if supplied:
+            slot[1] = out.copy()
+        else:
+            held.append([out, out.copy(), 'returned@%d' % step])
+    return False
+
+
 def check(run):
     from abacusnbody.analysis import cic, tsc
     from abacusnbody.analysis import power_spectrum as ps
@@ -414,6 +518,11 @@ def check(run):
             _c07.run_config(run, tsc, mon, rng, [16, 24, 32, 48, 20][k % 5], [2, 4, 8, 16][k % 4], None, 1 + k % 2, bool(k % 2), [0.0, 0.5, -0.75][k % 3], [1.0, 500.0][k % 2], [np.float32, np.float64][k % 2], bool(k % 3), long_x=bool(k % 2))
             run.count('partition_axis_configs_under_region_recorder')
     run.sample(dict(kernel='cic', family='dyadic', shape=[8, 16, 4], box=64.0, exact=True))
+    # call histories with rejected calls in between (own random stream; after all other workload)
+    hrng = run.rng(1)
+    for j in range(28 if run.quick else 400):
+        if history_episode(run, tsc, hrng, j) or run.too_many():
+            break
 
 
 def replay(run, data):
